@@ -20,6 +20,7 @@ type Finding struct {
 }
 
 type evalOut struct {
+	Skipped       string // the case is outside what the model speaks about (why)
 	StreamDropped bool
 	Malformed     bool
 	Class         string
@@ -297,6 +298,13 @@ func evaluate(ctx *vh.Ctx, prop string, c *Case) (*evalOut, error) {
 	if err := json.Unmarshal(raw, &model); err != nil {
 		return nil, err
 	}
+	if c.PlainPar != "" && strings.Contains(string(raw), `"c":"merge"`) {
+		// streams family: a fan-in of maps with a common key fails in value mode but concatenates the
+		// values in stream mode; the graphs of this family cannot be dropped to Invoke (their chunk-less
+		// producers only exist on streams), so such a case is left out
+		o.Skipped = "fan-in with a common key (merge error in the model)"
+		return o, nil
+	}
 	if len(c.Paradigms) > 0 && strings.Contains(string(raw), `"c":"merge"`) {
 		// a fan-in of maps with a common key fails in value mode but concatenates the values in stream
 		// mode (Invoke/Stream agreement under key-disjointness is C04's subject): the value-mode model
@@ -496,6 +504,16 @@ func candidates(c *Case) []*Case {
 				at(cc).Nodes[k].Body = Body{Op: "tag"}
 				out = append(out, cc)
 			}
+			if n.Body.Op == "emit" && !n.Body.Empty {
+				cc := cloneCase(c)
+				at(cc).Nodes[k].Body = Body{Op: "tag"}
+				out = append(out, cc)
+			}
+			if n.Body.Op == "emit" && n.Body.Xform && !n.Body.Empty {
+				cc := cloneCase(c)
+				at(cc).Nodes[k].Body.Xform = false
+				out = append(out, cc)
+			}
 		}
 		// drop nodes that nothing refers to
 		for k := range lv.Nodes {
@@ -585,9 +603,11 @@ func candidates(c *Case) []*Case {
 		}
 	}
 	if len(c.Paradigms) > 0 {
-		cc := cloneCase(c)
-		cc.Paradigms = nil
-		out = append(out, cc)
+		if c.PlainPar == "" { // (a streams case keeps the mode of its history: the reference run is driven in it)
+			cc := cloneCase(c)
+			cc.Paradigms = nil
+			out = append(out, cc)
+		}
 		if len(c.Paradigms) > 2 {
 			cc := cloneCase(c)
 			cc.Paradigms = cc.Paradigms[:len(cc.Paradigms)-1]
@@ -595,7 +615,7 @@ func candidates(c *Case) []*Case {
 		}
 		for i, p := range c.Paradigms {
 			// collect / transform -> the simpler call of the same mode
-			if p == "collect" || p == "transform" {
+			if (p == "collect" && c.PlainPar != "collect") || p == "transform" {
 				cc := cloneCase(c)
 				cc.Paradigms[i] = "stream"
 				out = append(out, cc)
@@ -702,6 +722,60 @@ func HistoryFeatures(c *Case, h *HistoryJ) []string {
 	return out
 }
 
+// streamHistoryFeatures: where a stream without chunks went through a checkpoint. From the
+// implementation's log: a chunk reader among the tasks a resuming call restores that received no
+// chunk (the chunk-less stream was its pending input); from the model's annotation of an interrupted
+// call (notes): the checkpoint held a chunk-less stream as a pending input / as a channel content.
+func streamHistoryFeatures(c *Case, h, m *HistoryJ) []string {
+	seen := map[string]bool{}
+	var out []string
+	add := func(k string) {
+		if !seen[k] {
+			seen[k] = true
+			out = append(out, k)
+		}
+	}
+	for i := 0; i+1 < len(h.Calls); i++ {
+		a, b := &h.Calls[i], &h.Calls[i+1]
+		if a.Res != "interrupted" {
+			continue
+		}
+		modes := modeOf(a.Paradigm) + "->" + modeOf(b.Paradigm)
+		for p, steps := range b.Steps {
+			info := infoAt(a.Info, p)
+			g := GraphAtPath(c.G, p)
+			if info == nil || g == nil || len(steps) == 0 {
+				continue
+			}
+			for _, k := range steps[0] {
+				if !contains(b.Execs, joinPath(p, k)+" "+Render(EmptyM())) {
+					continue
+				}
+				why := "carried"
+				if contains(info.Before, k) {
+					why = "before"
+				}
+				lvl := "top"
+				if p != "" {
+					lvl = "nested"
+				}
+				add("chunkless-stream-was-pending-input-of-restored-chunk-reader:" + why + ":" + lvl + ":" + modes)
+				add("chunkless-stream-was-pending-input-of-restored-chunk-reader")
+			}
+		}
+		if m != nil && i < len(m.Calls) {
+			for _, nt := range m.Calls[i].Notes {
+				add("model:" + nt + ":" + modes)
+			}
+		}
+	}
+	if n := len(h.Calls); n > 0 && h.Calls[n-1].Res == "done" && h.Calls[n-1].Result != nil && h.Calls[n-1].Result.Ok != nil && *h.Calls[n-1].Result.Ok == Render(EmptyM()) {
+		add("result-is-a-stream-without-chunks")
+	}
+	sort.Strings(out)
+	return out
+}
+
 var shrunkSigs = map[string]bool{} // one shrink per signature and run
 
 // Evaluate runs one case on the implementation and on the model, reports what differs
@@ -769,6 +843,17 @@ func Evaluate(ctx *vh.Ctx, prop string, c *Case, doShrink bool) error {
 	if o.AltsFullAsked {
 		ctx.Res.Dist("failure-alternatives-per-nesting-level-asked")
 	}
+	if c.PlainPar != "" {
+		for _, k := range StreamFeatures(c.G) {
+			ctx.Res.Dist(k)
+		}
+		ctx.Res.Dist("reference-run-paradigm=" + c.PlainPar)
+	}
+	if o.Skipped != "" {
+		ctx.Res.Dist("skipped: " + o.Skipped)
+		ctx.Res.Count("skipped", false)
+		return nil
+	}
 	if o.Malformed {
 		cl := o.Class
 		if len(cl) > 13 {
@@ -807,6 +892,9 @@ func Evaluate(ctx *vh.Ctx, prop string, c *Case, doShrink bool) error {
 			ctx.Res.Dist("final=" + fin)
 		}
 		for _, k := range HistoryFeatures(c, o.Impl) {
+			ctx.Res.Dist(k)
+		}
+		for _, k := range streamHistoryFeatures(c, o.Impl, o.Model) {
 			ctx.Res.Dist(k)
 		}
 		if subInts > 0 {
